@@ -955,3 +955,67 @@ def field_name_reuse_with_delete(case, outcome, atoms):
     DeleteField removes mutations of the *other* holder of the name (or the
     wrong field is deleted, or the batch is rejected)."""
     return _explain_by_flag('delete_name_reuse', case, outcome, atoms)
+
+
+# ---------------------------------------------------------------------------
+# C05
+# ---------------------------------------------------------------------------
+
+@explainer
+def eq_compares_raw_attrs(case, outcome, atoms):
+    """FieldSignature.__eq__ compares the raw field_attrs dictionaries while
+    diff() applies attribute defaults: a signature that states a default
+    explicitly (what AddField(..., null=False) or ChangeField(db_index=False)
+    leave behind) has an empty diff with, but is unequal to, the signature that
+    omits it."""
+    return [a for a in atoms if not (a[0] == 'diff_empty_but_unequal' and
+                                     str(a[2]).startswith('explicit_default:'))]
+
+
+@explainer
+def eq_is_set_based_diff_is_list_based(case, outcome, atoms):
+    """ModelSignature.__eq__ compares index/constraint signatures as sets (and
+    unique_together through has_unique_together_changed), diff() compares the
+    lists in order: reordered Meta.indexes / Meta.constraints are equal yet have
+    a non-empty diff."""
+    ops = {v['op'] for v in (case.get('variant') or [])}
+    if not ops & {'reverse_indexes', 'reverse_constraints', 'reverse_unique_together'}:
+        return atoms
+    return [a for a in atoms if not (a[0] == 'equal_but_diff_nonempty' and
+                                     str(a[1]).startswith('variant:') and 'reverse_' in a[1])]
+
+
+@explainer
+def diff_ignores_table_and_pk_column(case, outcome, atoms):
+    """ModelSignature.diff() does not look at table_name / pk_column (there is
+    no mutation for them outside RenameModel) while __eq__ does: such
+    signatures are unequal with an empty diff."""
+    ops = {v['op'] for v in (case.get('variant') or [])}
+    if not ops & {'table_name', 'pk_column'}:
+        return atoms
+    return [a for a in atoms if not (a[0] == 'diff_empty_but_unequal' and a[2] == 'model_meta' and
+                                     ('table_name' in a[1] or 'pk_column' in a[1]))]
+
+
+@explainer
+def retargeted_relation_not_resolved(case, outcome, atoms):
+    """A relation whose target model changes is hinted as
+    ChangeField(related_model=...), whose simulate() stores the value in
+    field_attrs instead of FieldSignature.related_model: the diff never becomes
+    empty."""
+    from . import specs as S
+    trail = _trail(case)
+    start, final = trail[0], trail[-1]
+    trigger = False
+    for a, n, m1 in S.iter_models(final):
+        m0 = S.get_model(start, a, n)
+        if m0 is None:
+            continue
+        for f1 in m1['fields']:
+            f0 = S.get_field(m0, f1['name'])
+            if f0 is not None and f0['target'] != f1['target']:
+                trigger = True      # re-targeted, or relation <-> plain field under one name
+    if not trigger:
+        return atoms
+    return [a for a in atoms if not (a[0] in ('closure_residual', 'closure_residual_reverse') and
+                                     'related_model' in a[1])]
